@@ -172,7 +172,8 @@ pub fn run_monitor(def: &MonitorDef, a: &Args) -> i32 {
 
 	if let Some(case) = a.case {
 		let wd = work_dir(def.id);
-		let scratch = wd.join("scratch_replay");
+		// private to this process: several `--case` runs of one property may run side by side (flavours)
+		let scratch = wd.join(format!("scratch_replay_{}", std::process::id()));
 		let _ = std::fs::create_dir_all(&scratch);
 		let cx = CaseCtx {
 			property: def.id,
